@@ -80,7 +80,7 @@ def run(rep, ctx):
                            'theorem': 'verdict_independent (position in the listing)'})
         cats = sorted(oracle.cats)
         groups = []
-        n = 100 if ctx.tier == 'quick' else 600
+        n = 100 if ctx.tier == 'quick' else 1200
         for k in range(n):
             cat = cats[k % len(cats)]
             names = oracle.names(cat)
